@@ -120,8 +120,8 @@ def exOld : Cfg := ⟨0, [], [⟨0, 1, 0, [0], [⟨0, 0⟩]⟩, ⟨3, 2, 0, [1],
 /-- a new config whose second started app (probe app 1) fails in Start after the first (probe app
     0, address 2) has started -/
 def exNew : Cfg := ⟨0, [], [⟨0, 5, 0, [2], []⟩, ⟨1, 6, 5, [3], []⟩]⟩
-def exEnv : Env := ⟨true, false, [], [0, 1], [0, 1]⟩
-def exState : State := (step State.init (.load exOld ⟨true, false, [], [0, 3], [0, 3]⟩)).1
+def exEnv : Env := ⟨true, false, 0, [], [0, 1], [0, 1]⟩
+def exState : State := (step State.init (.load exOld ⟨true, false, 0, [], [0, 3], [0, 3]⟩)).1
 
 -- the hypotheses of the rejected-attempt theorems hold in a non-trivial state …
 example : exState.raw = exState.rawJSON ∧ (∀ k ∈ exState.socks, k.cid < exState.next) ∧
@@ -134,12 +134,12 @@ example : ((changeTo exNew exEnv exState).1.aevents.filter
 example : (changeTo ⟨0, [], [⟨0, 5, 0, [2], []⟩]⟩ exEnv exState).2 = .ok ∧
     answers (changeTo ⟨0, [], [⟨0, 5, 0, [2], []⟩]⟩ exEnv exState).1 = [(2, 5)] := by decide
 -- "unchanged"
-example : (changeTo exOld ⟨false, false, [], [], []⟩ exState).2 = .same := by decide
+example : (changeTo exOld ⟨false, false, 0, [], [], []⟩ exState).2 = .same := by decide
 -- a history with rejected attempts in the middle satisfies the hypothesis of history_atomic_partial
 example : noExcluded State.init none
     [.load exOld exEnv, .load exNew exEnv, .patch ⟨3, 9, 2, [4], []⟩ exEnv, .junk, .del 0 exEnv, .stop] = true := by decide
 example : Inv exState (some exOld) := by
-  have := inv_step inv_init (.load exOld ⟨true, false, [], [0, 3], [0, 3]⟩) rfl
+  have := inv_step inv_init (.load exOld ⟨true, false, 0, [], [0, 3], [0, 3]⟩) rfl
   exact this
 
 end CaddyModel.C01
